@@ -83,7 +83,7 @@ def check(ctx, prog, stats, samples):
             if exp is None:
                 stats["rule_silent"] += 1
             elif exp != r["impl"]:
-                if artifact:
+                if artifact or (exp == ["ambig"] and D.kf01_shape(w, b, prog["defs"], vs, r["impl"])):
                     ctx.known_hit("KF-01", case)
                     stats["kf01"] += 1
                 else:
@@ -185,15 +185,21 @@ def run(ctx):
 
 
 def replay(ctx, payload):
-    res, w, b = D.eval_dep_program(payload["case"])
-    print(json.dumps([{k: r[k] for k in ("impl_raw", "model", "entered")} for r in res], default=str))
-    return any(r["impl"] != r["model"] for r in res) or True
+    """re-run the recorded program through the same comparisons; reproduced iff it raises a violation again"""
+    stats = {"evaluations": 0, "hist": collections.Counter(), "distinct": set(), "kf01": 0, "kf08": 0, "programs": 0,
+             "predicate_evaluations": 0, "rule_silent": 0, "rule_agreed": 0, "next_steps": 0}
+    before = len(ctx.violations)
+    check(ctx, payload["case"], stats, [])
+    return len(ctx.violations) > before
 
 
 def replay_finding(ctx, e):
     wit = e.get("witness_C10", e["witness"])
     if e["id"] == "KF-01":
-        return True if e["status"] == "open" else False
+        if "witness_C10" not in e:
+            return e["status"] == "open"
+        res, w, b = D.eval_dep_program(wit)
+        return res[0]["impl"] == wit["expect_impl"]
     if e["id"] == "KF-08":
         from ..world import World
         b = progs.Built(World([]), wit["defs"], utab=wit["utab"])
